@@ -102,7 +102,8 @@ class LogFormatter(logging.Formatter):
         Returns:
             str: The hashed value.
         """
-        return hashlib.sha256(value_to_hash.encode()).hexdigest()[:8]
+        # lone surrogates cannot be encoded strictly, and failing here would print the record raw
+        return hashlib.sha256(value_to_hash.encode("utf-8", "backslashreplace")).hexdigest()[:8]
 
     def clean_record(self, dirty_record: Dict, colorize: bool = True) -> Dict:
         """
